@@ -4,6 +4,7 @@ go 1.18
 
 require (
 	github.com/buildbuildio/pebbles v0.0.0
+	github.com/gobwas/ws v1.1.0
 	github.com/vektah/gqlparser/v2 v2.5.1
 )
 
@@ -11,7 +12,6 @@ require (
 	github.com/agnivade/levenshtein v1.1.1 // indirect
 	github.com/gobwas/httphead v0.1.0 // indirect
 	github.com/gobwas/pool v0.2.1 // indirect
-	github.com/gobwas/ws v1.1.0 // indirect
 	github.com/samber/lo v1.37.0 // indirect
 	golang.org/x/exp v0.0.0-20220303212507-bbda1eaf7a17 // indirect
 )
